@@ -1,4 +1,7 @@
 //! Independent reference model of ISO-BMFF (never calls into `mp4`).
+pub mod build;
 pub mod kitchen;
+pub mod movie;
 pub mod parse;
+pub mod tree;
 pub mod validate;
